@@ -58,6 +58,8 @@ def singles():
     for kind, inline, arity, left, right, name, ou, od in itertools.product(KINDS, (False, True), (1, 2), range(3), range(3),
                                                                          (None, 'fk n'), ACTIONS, ACTIONS):
         out.append((kind, inline, arity, left, right, name, ou, od, False))
+    for kind, inline, arity, left, right, name in itertools.product(KINDS, (False, True), (1, 2), range(3), range(3), ('fk_{x}', 'fk }{', "it's")):
+        out.append((kind, inline, arity, left, right, name, None, 'cascade', False))
     for kind, inline, left, right in itertools.product(KINDS, (False, True), range(3), range(3)):
         if left != right:
             out.append((kind, inline, 2, left, right, None, None, 'cascade', True))
